@@ -70,6 +70,13 @@ class CaseResult:
     def warns(self):
         return [(int(f[1]), int(f[2]), f[3], f[4]) for f in (l.split() for l in self.impl) if f[0] == "WARN"]
 
+    def warn_any(self):
+        """number of output lines that look like a conflict warning, whatever their wording (None: old dump)"""
+        for l in self.impl:
+            if l.startswith("WARNANY "):
+                return int(l.split()[1])
+        return None
+
     def codes(self):
         """(error code, accept code) as the implementation emits them"""
         for l in self.impl:
@@ -83,7 +90,7 @@ class CaseResult:
         return any(l.startswith("PACKED 1") for l in self.impl)
 
     def conflict_free_table(self):
-        return len(self.warns()) == 0
+        return len(self.warns()) == 0 and not self.warn_any()
 
 
 def default_inputs(rng, max_len=4, n_sent=6, cap=400):
